@@ -141,7 +141,8 @@ fn index_list<Data: GarnishData>(
     list: Data::Size,
     index: Data::Number,
 ) -> Result<Option<Data::Size>, RuntimeError<Data::Error>> {
-    if index < Data::Number::zero() {
+    if index < Data::Number::zero() || index >= <Data as GarnishData>::DataFactory::size_to_number(this.get_list_len(list.clone())?) {
+        // outside 0..len-1 there is no item, whatever the data implementation does with such an index
         Ok(None)
     } else {
         match this.get_list_item(list, index)? {
